@@ -184,6 +184,21 @@ def scanCommentTok (cfg : Cfg) (src : Array UInt8) (fuel : Nat) (st : St) (pos :
         -- `s.insertSemi = false; goto scanAgain` (tpl `#`: plain `goto scanAgain`)
         ((if cfg.d = .tpl ∧ sharp then c.st else { c.st with insertSemi := false }), none)
 
+/-- the operator cases of the `switch ch` (decision tries) and its `default:` (ILLEGAL);
+`st1` is the state after `s.next()`, `ch` the consumed character at offset `pos` -/
+def opFinish (cfg : Cfg) (src : Array UInt8) (st1 : St) (pos ch : Nat) : St × Option Token :=
+  match (codes cfg.d).ops.lookup ch with
+  | some t =>
+    let w := walk src t st1
+    finish cfg { w.1 with nParen := w.1.nParen + w.2.2.2 } pos w.2.1 [] w.2.2.1
+  | none =>
+    -- next reports unexpected BOMs - don't repeat
+    let st2 :=
+      if ch = bomCh then st1
+      else if cfg.d = .go ∧ (ch = 0x201C ∨ ch = 0x201D) then st1.error pos (.curlyQuote ch)
+      else st1.error pos (.illegalChar ch)
+    finish cfg st2 pos (codes cfg.d).ILLEGAL (encodeRune ch) st2.insertSemi
+
 /-- one pass through `Scan` from `scanAgain:` -/
 def scanStep (cfg : Cfg) (src : Array UInt8) (fuel : Nat) (st0 : St) : St × Option Token :=
   let C := codes cfg.d
@@ -228,18 +243,7 @@ def scanStep (cfg : Cfg) (src : Array UInt8) (fuel : Nat) (st0 : St) : St × Opt
       finish cfg { st1 with nParen := if cfg.d = .go then st1.nParen else 0 } pos C.SEMICOLON [0x3B] false
     else if ch = 0x23 ∧ cfg.d ≠ .go then scanCommentTok cfg src fuel st1 pos true
     else if ch = 0x2F ∧ (st1.ch = 0x2F ∨ st1.ch = 0x2A) then scanCommentTok cfg src fuel st1 pos false
-    else
-      match C.ops.lookup ch with
-      | some t =>
-        let w := walk src t st1
-        finish cfg { w.1 with nParen := w.1.nParen + w.2.2.2 } pos w.2.1 [] w.2.2.1
-      | none =>
-        -- next reports unexpected BOMs - don't repeat
-        let st2 :=
-          if ch = bomCh then st1
-          else if cfg.d = .go ∧ (ch = 0x201C ∨ ch = 0x201D) then st1.error pos (.curlyQuote ch)
-          else st1.error pos (.illegalChar ch)
-        finish cfg st2 pos C.ILLEGAL (encodeRune ch) st2.insertSemi
+    else opFinish cfg src st1 pos ch
 
 inductive Status where
   | done | panic | outOfFuel
